@@ -230,6 +230,141 @@ def deletable (fmt : Format) (crc : Bytes → Nat) (T : Nat) (bs : Bytes) : Bool
 def truncateBefore (fmt : Format) (crc : Bytes → Nat) (T : Nat) (active : Option Nat) (img : Image) : Image :=
   img.filter (fun p => active == some p.1 || !deletable fmt crc T p.2)
 
+/-! ## file names and directory listings
+
+  The rotator names its files `wal-{seq:08x}.wal` and relies on `WalStore::list()` (names in
+  lexicographic BYTE order) only through `parse_wal_sequence`; what it does with every other
+  name in the directory, and what the real ordering of names is, is made explicit here. -/
+
+abbrev Name := Bytes
+
+/-- lower-case hex digit -/
+def hexChar (d : Nat) : Nat := if d < 10 then 48 + d else 87 + d
+
+/-- `n` in exactly `w` hex digits, most significant first (`n` taken mod 16^w) -/
+def hexW : Nat → Nat → Bytes
+  | 0, _ => []
+  | w + 1, n => hexChar (n / 16 ^ w % 16) :: hexW w (n % 16 ^ w)
+
+/-- number of hex digits of `n` (at least 1) -/
+def hexDigits (n : Nat) : Nat := if n = 0 then 1 else Nat.log2 n / 4 + 1
+
+def walPrefix : Bytes := [119, 97, 108, 45]   -- "wal-"
+def walSuffix : Bytes := [46, 119, 97, 108]   -- ".wal"
+
+/-- `wal_file_name`: `format!("wal-{:08x}.wal", sequence)` — at least 8 digits, more when needed -/
+def walName (seq : Nat) : Name := walPrefix ++ (hexW (Nat.max 8 (hexDigits seq)) seq ++ walSuffix)
+
+def hexVal? (c : Nat) : Option Nat :=
+  if 48 ≤ c ∧ c ≤ 57 then some (c - 48)
+  else if 97 ≤ c ∧ c ≤ 102 then some (c - 87)
+  else if 65 ≤ c ∧ c ≤ 70 then some (c - 55)
+  else none
+
+/-- digits of `u64::from_str_radix(_, 16)`: any non-hex character or a value ≥ 2^64 is an error -/
+def parseHex : Nat → Bytes → Option Nat
+  | acc, [] => some acc
+  | acc, c :: cs =>
+    match hexVal? c with
+    | none => none
+    | some d => if acc * 16 + d < 2 ^ 64 then parseHex (acc * 16 + d) cs else none
+
+/-- `parse_wal_sequence`: strip `"wal-"` and `".wal"`, then `u64::from_str_radix(_, 16)` — which
+    accepts upper-case digits, a leading `+`, and any number of digits: several names can denote
+    the same sequence -/
+def parseSeq (n : Name) : Option Nat :=
+  if n.take 4 ≠ walPrefix then none
+  else
+    let r := n.drop 4
+    if r.length < 4 ∨ r.drop (r.length - 4) ≠ walSuffix then none
+    else
+      let mid := r.take (r.length - 4)
+      let digits := match mid with
+        | 43 :: ds => ds      -- one leading '+'
+        | ds => ds
+      if digits.isEmpty then none else parseHex 0 digits
+
+/-- byte-wise lexicographic order of names (`impl Ord for String`; `names.sort()` in `list()`) -/
+def nameLt : Name → Name → Bool
+  | [], [] => false
+  | [], _ :: _ => true
+  | _ :: _, [] => false
+  | a :: as, b :: bs => decide (a < b) || (a == b && nameLt as bs)
+
+/-- a directory as `WalStore::list()` + `open_read` present it: (name, contents) in listing order -/
+abbrev Dir := List (Name × Bytes)
+
+/-- the entries of the listing that parse as WAL files, with their sequence, in listing order -/
+def walFiles (dir : Dir) : List (Nat × Bytes) :=
+  dir.filterMap (fun p => (parseSeq p.1).map (fun s => (s, p.2)))
+
+def insertBySeq (x : Nat × Bytes) : List (Nat × Bytes) → List (Nat × Bytes)
+  | [] => [x]
+  | y :: ys => if x.1 ≤ y.1 then x :: y :: ys else y :: insertBySeq x ys
+
+/-- `wal_files.sort_by_key(|(seq, _)| *seq)`: stable — names denoting the same sequence keep their
+    listing order -/
+def sortBySeq (l : List (Nat × Bytes)) : List (Nat × Bytes) := l.foldr insertBySeq []
+
+/-- `WalRotator::recover_all_entries` over a directory: foreign names are ignored, WAL files are
+    read in sequence order -/
+def recoverAllD (fmt : Format) (crc : Bytes → Nat) (dir : Dir) : List Entry :=
+  recoverAll fmt crc (sortBySeq (walFiles dir))
+
+/-- `WalRotator::truncate_before` over a directory.  It iterates over ALL listed names (foreign
+    ones included: a foreign file with a valid WAL header and no entry stamped later than `T` is
+    deleted too) and spares exactly the name `active` of the open writer. -/
+def truncateBeforeD (fmt : Format) (crc : Bytes → Nat) (T : Nat) (active : Option Name) (dir : Dir) : Dir :=
+  dir.filter (fun p => active == some p.1 || !deletable fmt crc T p.2)
+
+/-- the name that comes last in the listing -/
+def lastListed (dir : Dir) : Option Name := dir.getLast?.map (·.1)
+
+/-- highest sequence found by `WalRotator::new` (0 for none) -/
+def maxSeqD (dir : Dir) : Nat := (walFiles dir).foldr (fun p m => Nat.max p.1 m) 0
+
+/-- put / replace a file, keeping the listing sorted by name (`create` truncates an existing one) -/
+def Dir.put (n : Name) (b : Bytes) : Dir → Dir
+  | [] => [(n, b)]
+  | p :: ps => if p.1 = n then (n, b) :: ps else if nameLt n p.1 then (n, b) :: p :: ps else p :: Dir.put n b ps
+
+def Dir.get (dir : Dir) (n : Name) : Option Bytes := (dir.find? (fun p => p.1 = n)).map (·.2)
+
+/-- a rotator over a directory without faults: state = (directory, open writer's sequence,
+    `current_sequence`); `none` = the process panicked (`checked_add(1).expect("WAL sequence
+    overflow")` when the directory holds a file with sequence 2^64 - 1) -/
+structure DRot where
+  dir : Dir
+  cur : Option Nat
+  seq : Nat
+  deriving Repr
+
+/-- `WalRotator::new` -/
+def DRot.new (dir : Dir) : DRot := ⟨dir, none, maxSeqD dir⟩
+
+/-- `WalRotator::append` (no faults) -/
+def DRot.append (fmt : Format) (maxSize : Nat) (r : DRot) (e : Entry) : Option DRot :=
+  let needsNew : Bool :=
+    match r.cur with
+    | none => true
+    | some c => decide (maxSize ≤ ((r.dir.get (walName c)).getD []).length)
+  if needsNew then
+    if r.seq + 1 < 2 ^ 64 then
+      let s := r.seq + 1
+      some ⟨r.dir.put (walName s) (header fmt s ++ e.encode), some s, s⟩
+    else none
+  else
+    match r.cur with
+    | none => none
+    | some c => some { r with dir := r.dir.put (walName c) ((r.dir.get (walName c)).getD [] ++ e.encode) }
+
+def DRot.appendAll (fmt : Format) (maxSize : Nat) : DRot → List Entry → Option DRot
+  | r, [] => some r
+  | r, e :: es =>
+    match DRot.append fmt maxSize r e with
+    | none => none
+    | some r' => DRot.appendAll fmt maxSize r' es
+
 /-! ## store with durability state, fault oracle, rotator -/
 
 /-- `InMemoryFile { data, synced_pos }` -/
@@ -266,7 +401,8 @@ def Outcome.createErr : Outcome → Err
 
 /-- one recorded I/O call (what the harness-side `WalStore` logs) -/
 inductive Call where
-  | create (seq : Nat) (ok : Bool)
+  | create (seq : Nat) (ok : Bool) (existed : Bool)   -- `existed`: a file of that name was there (and is truncated by a successful create)
+  | crash                                             -- pseudo-call: the machine crashed here (every file cut to its synced length)
   | append (seq : Nat) (len : Nat) (o : Outcome)
   | sync (seq : Nat) (ok : Bool)
   | delete (seq : Nat) (ok : Bool)
@@ -292,8 +428,8 @@ def World.push (w : World) (st : Store) (c : Call) : World :=
 /-- `WalStore::create` (truncates/creates the file) -/
 def ioCreate (φ : Nat → Outcome) (w : World) (seq : Nat) : World × Option Err :=
   match φ w.io with
-  | .ok => (w.push (NMap.insert seq ⟨[], 0⟩ w.store) (.create seq true), none)
-  | o => (w.push w.store (.create seq false), some o.createErr)
+  | .ok => (w.push (NMap.insert seq ⟨[], 0⟩ w.store) (.create seq true (NMap.get w.store seq).isSome), none)
+  | o => (w.push w.store (.create seq false (NMap.get w.store seq).isSome), some o.createErr)
 
 def appendData (st : Store) (seq : Nat) (bs : Bytes) : Store :=
   match NMap.get st seq with
@@ -425,6 +561,23 @@ def Rot.truncate (fmt : Format) (crc : Bytes → Nat) (φ : Nat → Outcome) (T 
     | some f => deletable fmt crc T f.data
     | none => false)
   { r with w := truncLoop φ victims r.w }
+
+/-- what is left of the store after a machine crash: every file cut to its synced length
+    (and that much is, of course, on disk) -/
+def crashStore (st : Store) : Store :=
+  st.map (fun p => (p.1, (⟨p.2.data.take p.2.synced, (p.2.data.take p.2.synced).length⟩ : File)))
+
+/-- highest sequence number among the files of the store (`0` if there is none) -/
+def maxKey (st : Store) : Nat := st.foldr (fun p m => Nat.max p.1 m) 0
+
+/-- a NEW rotator over an existing store (`WalRotator::new` after a restart):
+    `current_sequence` = the highest sequence found in the listing, no current writer, so the
+    first `rotate()` creates `max + 1`.  `reuse = true` is the variant in which the first rotate
+    re-creates the name of the highest-numbered EXISTING file (the counter is treated as "next
+    sequence to use" by `rotate` but still initialised to the highest one found). -/
+def Rot.reopen (reuse : Bool) (r : Rot) : Rot :=
+  { r with cur := none, poisoned := false,
+           seq := if reuse then maxKey r.w.store - 1 else maxKey r.w.store }
 
 /-- `WalRotator::sync` -/
 def Rot.sync (fix : Bool) (φ : Nat → Outcome) (r : Rot) : Rot × Bool :=
